@@ -926,6 +926,19 @@ func (e *Env) callExpr(n *ast.CallExpr) Val {
 			skip[id.Name] = true
 		}
 		return boolVal(e.deepEq(a.T, a.S, b.S, skip, 0))
+	case "mention":
+		// mention(t): always true; keeps the term t in the clause so that goal-directed instantiation sees it (a proof hint:
+		// "look at this position")
+		argc(1)
+		v := e.eval(n.Args[0])
+		var cs []string
+		for _, t := range v.S {
+			cs = append(cs, app("=", t, t))
+		}
+		if len(cs) == 1 {
+			return boolVal(cs[0])
+		}
+		return boolVal(app("and", cs...))
 	case "allocated":
 		// allocated(x): the object x refers to (pointer, map, slice, channel) exists in the current state, i.e. it was
 		// allocated before this point (nil counts as allocated). In a loop invariant: "not created by a later iteration".
